@@ -208,7 +208,7 @@ def h_copies(env):
 
 def units(tier):
     u = []
-    cats = [("s2 " + n, ["s2", n]) for n in ("oneofs", "nested", "optionals", "mapmsg", "packed", "recursive")]
+    cats = [("s2 " + n, ["s2", n]) for n in ("oneofs", "nested", "optionals", "mapmsg", "packed", "recursive", "emptymsg")]
     cats += [("s1 bytes singular", ["s1", "bytes", "singular"]), ("map bool->bytes", ["s1map", "bool", "bytes"])]
     if tier == "thorough":
         cats += [("s2 " + n, ["s2", n]) for n in ("repmsg", "wrappers")]
